@@ -48,7 +48,21 @@ def strip(program: tuple) -> tuple:
     return tuple((k, tuple(a for a in acts if a[1] not in ('pause', 'play')), t) for k, acts, t in program)
 
 
+def is_wc_unit(unit: Any) -> bool:
+    try:
+        return unit[0][0][0][0] in ('gate', 'child')
+    except Exception:  # noqa: BLE001
+        return False
+
+
 def reference(unit: Any) -> Any:
+    if is_wc_unit(unit):
+        key = unit[0]
+        if key not in _REF:
+            from .. import wcharness
+            run = ctl.make_runner(wc_cfg, RefOracle, cls_for=wcharness.cls_for, world_cls=wcharness.WcWorld)((key, None))
+            _REF[key] = run(Chooser(())).outcome
+        return _REF[key]
     key = strip(unit[0])
     if key not in _REF:
         run = ctl.make_runner(cfg_for, RefOracle)((key, None))
@@ -113,7 +127,29 @@ def cfg_for(unit: Any) -> ctl.Config:
     return ctl.Config(alphabet=ALPHABET, closing=('gates', 'play', 'resume_if_none'), resume_default=('dflt',))
 
 
+WC_ALPHABET = (('pause',), ('pause', 'm'), ('play',))
+
+
+def wc_cfg(unit: Any) -> ctl.Config:
+    return ctl.Config(alphabet=WC_ALPHABET, closing=('gates', 'play'))
+
+
 PROP = CtlProperty(ID, Oracle, cfg_for)
+
+
+def wc_factory() -> CtlProperty:
+    from .. import wcharness
+    return CtlProperty(ID, Oracle, wc_cfg, cls_for=wcharness.cls_for, world_cls=wcharness.WcWorld)
+
+
+def wc_units(tier: str) -> List[Any]:
+    import itertools
+    units: List[Any] = []
+    for n in (1, 2):
+        for items in itertools.product((('gate', 'ok'), ('child', 'ok')), repeat=n):
+            for how in ('return', 'call'):
+                units.append(((items, how, True), None))
+    return units
 
 
 def factory() -> CtlProperty:
@@ -140,6 +176,19 @@ def units_for(tier: str) -> List[Any]:
 
 
 def run_check(tier: str, seed: int, workers: Any) -> Dict[str, Any]:
+    part1 = run_processes(tier, seed, workers)
+    budget = {'K': 2, 'J': 2} if tier == 'quick' else {'K': 3, 'J': 2}
+    part2 = runner.run_explorer(
+        wc_factory, (), wc_units(tier), budget, seed, workers,
+        rule='work chains (s1 registers 1-2 loop futures / launched children, s2 re-assigns a key, s3) under every placement '
+             'of <=K requests from ' + repr(WC_ALPHABET) + ' and <=J early completions, closed by play; same oracle',
+        assumptions=[], bounds=dict(budget, n_items=2), describe=lambda u: {'items': u[0][0], 'how': u[0][1]})
+    for v in part2['violations']:
+        v['features'] = dict(v.get('features', {}), part='workchain')
+    return runner.merge([part1, part2])
+
+
+def run_processes(tier: str, seed: int, workers: Any) -> Dict[str, Any]:
     budget = {'K': 2, 'J': 1} if tier == 'quick' else {'K': 3, 'J': 1}
     return runner.run_explorer(
         factory, (), units_for(tier), budget, seed, workers,
@@ -152,4 +201,8 @@ def run_check(tier: str, seed: int, workers: Any) -> Dict[str, Any]:
         bounds={'K': budget['K'], 'J': budget['J'], 'program_len': 3}, describe=describe_unit)
 
 
-replay = PROP.replay
+def replay(doc: Dict[str, Any]) -> List[Dict[str, Any]]:
+    from ..cli import to_tuple
+    if is_wc_unit(to_tuple(doc['unit'])):
+        return wc_factory().replay(doc)
+    return PROP.replay(doc)
